@@ -93,13 +93,15 @@ class Gen:
     def text(self, nbytes):
         rng = self.rng
         while True:
-            s = ''
-            while len(s.encode()) < nbytes:
-                s += rng.choice(CHARS)
-            while len(s.encode()) > nbytes:
-                s = s[:-1]
-            while len(s.encode()) < nbytes:
-                s += 'a'
+            parts, total = [], 0
+            while total < nbytes:
+                ch = rng.choice(CHARS)
+                n = len(ch.encode())
+                if total + n > nbytes:
+                    ch, n = 'a', 1
+                parts.append(ch)
+                total += n
+            s = ''.join(parts)
             if s.encode()[:4] not in self.bad_prefixes:
                 return s
 
@@ -298,7 +300,7 @@ class St:
 class TlWorld(HistoryWorld):
     name = 'TL'
     chunk = 4
-    legs = {'quick': [('frames', 640), ('blockid', 600)], 'thorough': [('frames', 60000), ('blockid', 20000)]}
+    legs = {'quick': [('frames', 4200), ('blockid', 1200)], 'thorough': [('frames', 400000), ('blockid', 40000)]}
     budget = {'quick': 110, 'thorough': 1500}
     real_code = ['pytoniq_core.tl.generator (TlGenerator.generate/from_file, TlRegistrator.register/get_id, split, TlSchemas.serialize/serialize_field/deserialize)',
                  'pytoniq_core.tl.block (BlockId, BlockIdExt)']
@@ -371,11 +373,114 @@ class TlWorld(HistoryWorld):
                     'hash_as': rng.choice(['bytes', 'hex']), 'diff': rng.choice(['wc', 'shard', 'seqno', 'rh', 'fh'])}
         ref = st.ref
         dom = ref.domain
+        if rng.random() < 0.15:
+            op = self._gen_embedded(st, ctx)
+            if op is not None:
+                return op
         name = dom[(ctx.cfg['start'] + st.k) % len(dom)] if rng.random() < 0.85 else rng.choice(dom)
         st.k += 1
         g = Gen(rng, ref, st.extra_ids)
         val = g.obj(ref.by_name[name], ctx.cfg['depth'], typed=True)
         return {'op': 'send', 'dir': rng.choice(['lib->peer', 'peer->lib']), 'ctor': name, 'value': to_json(val), 'tags': sorted(g.tags)}
+
+    def _gen_embedded(self, st, ctx):
+        """A frame whose bytes field carries another TL object (how ADNL queries, answers and custom messages travel)."""
+        rng, ref = ctx.rng, st.ref
+        if not hasattr(st, 'carriers'):
+            st.carriers = [n for n in ref.domain if any(f.type == 'bytes' for f in ref.by_name[n].fields)]
+            st.by_nat = {}
+            for n in ref.domain:
+                for f in ref.by_name[n].fields:
+                    if f.type == '#':
+                        st.by_nat.setdefault(f.name, []).append(n)
+        if not st.carriers:
+            return None
+        pref = [n for n in st.carriers if any(f.type == '#' for f in ref.by_name[n].fields)]
+        outer = rng.choice(pref) if pref and rng.random() < 0.6 else rng.choice(st.carriers)
+        oc = ref.by_name[outer]
+        g = Gen(rng, ref, st.extra_ids)
+        val = g.obj(oc, 2, typed=True)
+        inner = {}
+        nats = [f.name for f in oc.fields if f.type == '#']
+        for f in oc.fields:
+            if f.type != 'bytes' or f.name not in val:
+                continue
+            cands = [n for nat in nats for n in st.by_nat.get(nat, [])]
+            iname = rng.choice(cands) if cands and rng.random() < 0.7 else rng.choice(ref.domain)
+            ival = Gen(rng, ref, st.extra_ids).obj(ref.by_name[iname], 2, typed=True)
+            inner[f.name] = {'ctor': iname, 'value': to_json(ival)}
+        if not inner:
+            return None
+        return {'op': 'send_embedded', 'ctor': outer, 'value': to_json(val), 'inner': inner}
+
+    def op_send_embedded(self, st, op, ctx):
+        ref, sch = st.ref, st.schemas
+        c = ref.by_name.get(op['ctor'])
+        if c is None:
+            return
+        value = from_json(op['value'])
+        inner_vals = {}
+        try:
+            for fname, d in op['inner'].items():
+                ic = ref.by_name[d['ctor']]
+                iv = from_json(d['value'])
+                iw = ref.encode(ic.name, iv)
+                if len(iw) > 60000 or fname not in value:
+                    return
+                value[fname] = iw
+                inner_vals[fname] = (ic, iv, iw)
+            wire = ref.encode(c.name, value)
+        except (reftl.TlModelError, KeyError, TypeError, AttributeError, ValueError, OverflowError):
+            return
+        if not inner_vals:
+            return
+        ctx.probe('object-embedded-in-bytes-field')
+        nats = set(f.name for f in c.fields if f.type == '#')
+        if any(nats & set(f.name for f in ic.fields if f.type == '#') for ic, _, _ in inner_vals.values()):
+            ctx.probe('embedded-object-has-a-flags-field-of-the-same-name')
+        status, res, steps = metered(PARSE_BUDGET + 40 * len(wire), sch.deserialize, wire)
+        ctx.evaluated(1)
+        ctx.tick(steps)
+        if status != 'ok':
+            self.V(ctx, 'parse-raises' if status == 'raised' else 'parse-no-result', 'deserialize', 'embedded-object', 'parsing a valid %s frame carrying %s raised / did not finish: %r'
+                   % (c.name, [ic.name for ic, _, _ in inner_vals.values()], res))
+            return
+        try:
+            val, used = res
+        except (TypeError, ValueError):
+            self.V(ctx, 'parse-raises', 'deserialize', 'shape', 'deserialize returned %r' % (res,))
+            return
+        if not isinstance(val, dict) or val.get('@type') != c.name:
+            self.V(ctx, 'parse-value-differs', 'deserialize', 'constructor-id', 'a %s frame parsed as %r' % (c.name, type(val)))
+            return
+        # fields other than the carriers: as sent; carriers: the raw bytes or the object they encode
+        exp_rest = dict(value)
+        got_rest = dict(val)
+        for fname, (ic, iv, iw) in inner_vals.items():
+            exp_rest.pop(fname, None)
+            got = got_rest.pop(fname, None)
+            if isinstance(got, (bytes, bytearray)):
+                okf = bytes(got) == iw
+            elif isinstance(got, dict):
+                okf = got.get('@type') == ic.name and norm(ref, ic.result, got) == norm(ref, ic.result, iv)
+            else:
+                okf = False
+            if not okf:
+                self.V(ctx, 'parse-value-differs', 'deserialize', 'embedded-object', '%s.%s carried a %s object (%d bytes); it came back as %s' % (c.name, fname, ic.name, len(iw), repr(got)[:120]))
+                return
+        # the remaining fields, compared schema-directed with the carrier fields removed on both sides
+        class _C:   # the constructor without its carrier fields
+            pass
+        cc = _C()
+        cc.fields = [f for f in c.fields if f.name not in inner_vals]
+        cc.name, cc.result = c.name, c.result
+        if norm_fields(ref, cc, got_rest) != norm_fields(ref, cc, exp_rest):
+            k = first_diff(ref, cc, norm_fields(ref, cc, exp_rest), norm_fields(ref, cc, got_rest))
+            self.V(ctx, 'parse-value-differs', 'deserialize', 'next-to-embedded-object/' + k,
+                   '%s: a field of class %s next to an embedded %s object differs from the sent value' % (c.name, k, [ic.name for ic, _, _ in inner_vals.values()]))
+            return
+        if used != len(wire):
+            self.V(ctx, 'parse-consumed', 'deserialize', 'embedded-object', '%s: parser consumed %r of %d bytes' % (c.name, used, len(wire)))
 
     # ------------------------------------------------------------------ execution
     def apply(self, st, op, ctx):
